@@ -7,9 +7,11 @@
 (*                                                                         *)
 (* Input: one line per connection / exchange (tools/fam_tunnel.py only     *)
 (* regroups the harness's per-event lines, keeping each endpoint's order): *)
-(*   kind "tcp"  [s, c, entry, refuse, C, T]   C / T = the event sequences *)
-(*               of the local client and of the target                      *)
-(*   kind "udp"  [s, mode, tgt, CL, T]   CL[k] = events of local client k  *)
+(*   kind "tcp"  [s, c, entry, refuse, rhold_c, rhold_t, C, T]   C / T =   *)
+(*               the event sequences of the local client and of the target; *)
+(*               rhold_x: endpoint x starts with its reader held            *)
+(*   kind "udp"  [s, mode, tgts, CL, T, T2]   CL[k] = events of local      *)
+(*               client k, T / T2 = events of the first / second target    *)
 (*   kind "sys"  [s, ev, ..]   the tunnel died, panicked or hung           *)
 (*                                                                         *)
 (* TCP: the harness never merges the two endpoint logs by wall clock.  The *)
@@ -21,9 +23,15 @@
 (* Every connection is an initial state of its own; register 10 + i keeps  *)
 (* the verdict of line i, the deepest point any interleaving reached and   *)
 (* the monitors that block there (for the diagnosis).                      *)
+(* Two kinds of events are statements of the harness about BOTH endpoints  *)
+(* (it owns both and has one clock): timeout "eof" (the peer finished the  *)
+(* deadline ago) and timeout "delivery" (the reading peer had not received *)
+(* what this endpoint sent when the deadline ran out: signature            *)
+(* direction_blocked).  They hold wherever the search places them.         *)
 (* UDP: the relation UdpFailing of DirectConn.tla is evaluated on the      *)
 (* history of the exchange (SOCKS5: ParseUdp of Socks.tla on what each     *)
-(* client received).                                                        *)
+(* client received; every datagram at the target it was addressed to:      *)
+(* signature udp_datagram_wrong_target).                                    *)
 (*                                                                         *)
 (* Acceptance: POSTCONDITION Accepted (as in SocksTrace.tla): every        *)
 (* rejected line is reported with a stable signature.                      *)
@@ -57,14 +65,17 @@ HistOf(r) ==
   LET us == Gather(r, Len(r.CL), "usend")
       ur == Gather(r, Len(r.CL), "urecv")
       to == Gather(r, Len(r.CL), "utimeout") \o Gather(r, Len(r.CL), "usend_err")
-      tr == SelectSeq(r.T, LAMBDA e : e.ev = "trecv")
-      tp == SelectSeq(r.T, LAMBDA e : e.ev = "treply")
-  IN [mode |-> r.mode, tgt |-> r.tgt,
-      sent     |-> [i \in 1 .. Len(us) |-> [k |-> us[i].k, j |-> us[i].e.j, n |-> us[i].e.n, dg |-> us[i].e.dg, to |-> us[i].e.to]],
+      \* the two targets are two endpoints with a log each; their events carry the number of the target
+      Of(q, ev) == SelectSeq(q, LAMBDA e : e.ev = ev)
+      tr == Of(r.T, "trecv") \o Of(r.T2, "trecv")
+      tp == Of(r.T, "treply") \o Of(r.T2, "treply")
+  IN [mode |-> r.mode, tgts |-> r.tgts,
+      sent     |-> [i \in 1 .. Len(us) |-> [k |-> us[i].k, j |-> us[i].e.j, n |-> us[i].e.n, dg |-> us[i].e.dg, to |-> us[i].e.to,
+                                            tgt |-> us[i].e.tgt]],
       crecv    |-> [i \in 1 .. Len(ur) |-> [k |-> ur[i].k, from |-> ur[i].e.from, n |-> ur[i].e.n, head |-> ur[i].e.head, sfx |-> ur[i].e.sfx]],
       timeouts |-> to,
-      trecv    |-> [i \in 1 .. Len(tr) |-> [r |-> tr[i].r, src |-> tr[i].src, n |-> tr[i].n, dg |-> tr[i].dg]],
-      treply   |-> [i \in 1 .. Len(tp) |-> [r |-> tp[i].r, to |-> tp[i].to, n |-> tp[i].n, dg |-> tp[i].dg]]]
+      trecv    |-> [i \in 1 .. Len(tr) |-> [r |-> tr[i].r, src |-> tr[i].src, n |-> tr[i].n, dg |-> tr[i].dg, tgt |-> tr[i].tgt]],
+      treply   |-> [i \in 1 .. Len(tp) |-> [r |-> tp[i].r, to |-> tp[i].to, n |-> tp[i].n, dg |-> tp[i].dg, tgt |-> tp[i].tgt]]]
 
 AssocFailed(r) == \E n \in 1 .. Len(r.CL) : \E i \in 1 .. Len(r.CL[n]) : r.CL[n][i].ev = "assoc" /\ ~r.CL[n][i].ok
 
@@ -73,14 +84,14 @@ AssocFailed(r) == \E n \in 1 .. Len(r.CL) : \E i \in 1 .. Len(r.CL[n]) : r.CL[n]
 LostAfterIdle(r) ==
   LET h == HistOf(r)
       us == Gather(r, Len(r.CL), "usend")
-      lost == {i \in Idx(us) : ~\E m \in Idx(h.trecv) : <<h.trecv[m].n, h.trecv[m].dg>> = <<us[i].e.n, us[i].e.dg>>}
+      lost == {i \in Idx(us) : ~\E m \in Idx(h.trecv) : <<h.trecv[m].n, h.trecv[m].dg, h.trecv[m].tgt>> = <<us[i].e.n, us[i].e.dg, us[i].e.tgt>>}
   IN lost # {} /\ \A i \in lost : us[i].e.idle_ms >= 10000
 
 UdpWhy(r) ==
   LET w == UdpFailing(HistOf(r), HdrAddr = "target") \cup (IF AssocFailed(r) THEN {"socks5_associate_failed"} ELSE {})
   IN IF "udp_datagram_lost" \in w /\ LostAfterIdle(r) THEN (w \ {"udp_datagram_lost"}) \cup {"udp_datagram_lost_after_idle"} ELSE w
 
-UdpOrder == <<"socks5_associate_failed", "udp_datagram_modified", "udp_datagram_duplicated", "udp_datagram_lost",
+UdpOrder == <<"socks5_associate_failed", "udp_datagram_wrong_target", "udp_datagram_modified", "udp_datagram_duplicated", "udp_datagram_lost",
               "udp_datagram_lost_after_idle",
               "socks5_udp_header", "udp_reply_wrong_client", "udp_reply_wrong_source", "udp_reply_modified",
               "udp_reply_duplicated", "udp_reply_lost", "socks5_udp_header_addr", "udp_timeout">>
@@ -105,7 +116,10 @@ Blockers ==
 
 Init ==
   /\ k \in 1 .. N
-  /\ ic = 0 /\ it = 0 /\ st = TcpInit
+  /\ ic = 0 /\ it = 0
+  /\ st = IF Rec[k].kind = "tcp"
+          THEN TcpInitHeld((IF Rec[k].rhold_c THEN {"c"} ELSE {}) \cup (IF Rec[k].rhold_t THEN {"t"} ELSE {}))
+          ELSE TcpInit
   /\ TLCSet(Reg(k),
        IF Rec[k].kind = "tcp" THEN [acc |-> FALSE, depth |-> -1, why |-> {}]
        ELSE IF Rec[k].kind = "udp" THEN LET w == UdpWhy(Rec[k]) IN [acc |-> w = {}, depth |-> 0, why |-> w]
@@ -150,6 +164,8 @@ TcpSig(r, why) ==
   ELSE IF Has(C \o T, LAMBDA e : e.ev = "bad") THEN "tcp_bytes_corrupt"
   ELSE IF ~Contiguous(C) \/ ~Contiguous(T) THEN "tcp_bytes_misordered"
   ELSE IF GotUpTo(C) > SumSent(T, Len(T)) \/ GotUpTo(T) > SumSent(C, Len(C)) THEN "tcp_bytes_invented"
+       \* what one endpoint sent did not reach the reading peer while the opposite direction was blocked
+  ELSE IF Has(C \o T, LAMBDA e : e.ev = "timeout" /\ e.what = "delivery") /\ "Independent" \in why THEN "direction_blocked"
   ELSE IF Has(C \o T, LAMBDA e : e.ev = "timeout" /\ e.what = "write")
        THEN (IF "StalledAfterClose" \in why THEN "write_stalled_after_peer_closed" ELSE "tcp_stalled")
        \* an endpoint gave up waiting for the end of the stream: after the peer CLOSED (or refused) it is the local
